@@ -257,6 +257,9 @@ func check(c Case) error {
 	if c.N <= 0 || c.Reps <= 0 || len(c.Entries) == 0 {
 		return nil
 	}
+	if c.Gen != nil && compose.TooLarge(*c.Gen) {
+		return nil // expands to megabytes of output: outside this family's budget
+	}
 	run.Inflight(prop, "case", c)
 	if c.Procs > 0 {
 		defer runtime.GOMAXPROCS(runtime.GOMAXPROCS(c.Procs))
